@@ -280,6 +280,43 @@ DUMMY = {"order": [], "bonds": {"X": []}, "present": [], "nplus": False, "cminus
          "mode": "addh", "missing": [], "geonplus": False, "geocminus": False}
 
 
+def template_bonds(ctx):
+    """The templates as loaded (patches applied) are the reference every added atom is judged against; Templates.tla requires
+    that each bond a template lists joins atoms whose template coordinates are a covalent bond length apart (otherwise
+    "template-consistent" has no meaning).  Terminus patches applied to the water template at load time (CWAT, NWAT, ...) are
+    never used: terminus patches are applied to amino-acid residues only."""
+    import numpy as np
+    d = gen.definitions()
+    bonds, labels = [], []
+    for rn in sorted(d.map):
+        if rn.endswith("WAT") and rn != "WAT":
+            continue
+        r = d.map[rn]
+        for an, a in r.map.items():
+            for b in a.bonds:
+                if b not in r.map or an >= b:
+                    continue
+                o = r.map[b]
+                dist = float(np.linalg.norm(np.array([a.x, a.y, a.z], dtype=float) - np.array([o.x, o.y, o.z], dtype=float)))
+                bonds.append({"h": an.startswith("H") or b.startswith("H"), "s": an[0] in "SP" or b[0] in "SP",
+                              "d": min(int(round(dist * 1000)), 10 ** 8)})
+                labels.append((rn, an, b, dist))
+    tf = core.write_json(os.path.join(ctx.work, "templates.json"), bonds)
+    r = core.run_tlc("Templates", "Templates.cfg", ctx.work, workers=1, env={"TRACE_FILE": tf}, timeout=600)
+    core.need_ok(r, "Templates")
+    ctx.add_tlc(r, "template bonds are covalent bond lengths")
+    bad = next((v[1] for v in r.printed if isinstance(v, list) and v and v[0] == "BAD"), None)
+    if bad is None:
+        raise core.MachineryError(f"Templates: no verdict; {r.out[-500:]}")
+    ctx.extra["template_bonds"] = {"definitions": len(set(x[0] for x in labels)), "bonds": len(bonds), "outside_covalent_range": len(bad)}
+    ctx.evaluations += len(bonds)
+    for k in sorted(bad)[:20]:
+        rn, an, b, dist = labels[k - 1]
+        ctx.violation({"clause": "TemplateBondsChemical", "residue": rn, "bond": f"{an}-{b}"},
+                      f"template {rn}: atoms {an} and {b} are listed as bonded but their template coordinates are {dist:.3f} A apart",
+                      {"residue": rn, "a": an, "b": b, "distance": dist})
+
+
 def run(ctx):
     rng = random.Random(ctx.seed)
     ctx.rule = ("runs: ALA tripeptides with every residue type at each position (heavy atoms only; a side-chain atom removed), "
@@ -292,6 +329,7 @@ def run(ctx):
                         "the recorded arguments; the identity and pairing of those arguments is judged by the path clauses) and the "
                         "residual of the optimal superposition of the template star (parent and its given neighbours) on the input"]
     ctx.trusted += ["vlib/tracer.py (placement wrappers)", "vlib/checks/c05.py (measurements, numpy SVD)", "TLC 1.8"]
+    template_bonds(ctx)
     jobs = corpus(ctx, rng)
     res = core.pmap(_job, jobs, chunksize=1)
     traces = []
